@@ -4,3 +4,7 @@
 package main
 
 func setSSSE3(v bool) bool { return false }
+
+func c09r(w []string) string { return "n/a" }
+
+func init() { extraDispatch["c09r"] = c09r }
